@@ -13,6 +13,10 @@ import sys
 import traceback
 
 
+import signal
+signal.signal(signal.SIGPIPE, signal.SIG_DFL)  # `check.py ... | head` must not turn into a traceback
+
+
 def main(argv):
     args = list(argv[1:])
     tier = os.environ.get("VERIF_TIER", "quick") or "quick"
@@ -32,6 +36,9 @@ def main(argv):
             props.append(a)
     if repo:
         os.environ["PGF_REPO"] = repo
+        if os.path.realpath(repo) != "/repo" and "PGF_EVIDENCE_DIR" not in os.environ:
+            # a scratch tree is being analysed (checker self-tests): never overwrite the evidence of the real tree
+            os.environ["PGF_EVIDENCE_DIR"] = "/dev/shm/pgfstatic-scratch-evidence"
     if tier not in ("quick", "thorough"):
         tier = "quick"
     sys.path.insert(0, os.path.dirname(os.path.abspath(__file__)))
@@ -59,7 +66,7 @@ def main(argv):
             except model.AnalysisError as e:
                 # a violation that was positively identified before the analysis got stuck is
                 # still a violation; otherwise this is an honest "cannot decide"
-                if not rep.findings:
+                if not rep.unlisted_findings():
                     raise
                 rep.note(f"analysis incomplete after the reported violation(s): {e}")
                 print(f"note: analysis incomplete after the reported violation(s): {e}")
